@@ -178,6 +178,34 @@ def random_grid(draw, maxdim=12, kinds=("uniform", "forest", "forest",
     return {"shape": [nr, nc], "fd": fd, "kind": kind}
 
 
+@st.composite
+def serpentine_grid(draw, maxdim=9):
+    """One channel winding through every cell of the grid (boustrophedon by
+    rows or by columns, optionally reversed): the longest flow path has
+    nrows*ncols - 1 steps, far more than the grid perimeter."""
+    nr, nc = draw(st.integers(2, maxdim)), draw(st.integers(2, maxdim))
+    by_rows = draw(st.booleans())
+    path = []
+    if by_rows:
+        for r in range(nr):
+            ks = range(nc) if r % 2 == 0 else range(nc - 1, -1, -1)
+            path.extend((r, k) for k in ks)
+    else:
+        for k in range(nc):
+            rs = range(nr) if k % 2 == 0 else range(nr - 1, -1, -1)
+            path.extend((r, k) for r in rs)
+    if draw(st.booleans()):
+        path = path[::-1]
+    inv = {v: k for k, v in OFFSETS.items()}
+    fd = [0] * (nr * nc)
+    for (r, k), (r2, k2) in zip(path[:-1], path[1:]):
+        fd[r * nc + k] = inv[(r2 - r, k2 - k)]
+    end = path[-1]
+    fd[end[0] * nc + end[1]] = draw(st.sampled_from([0, 0, 3]))
+    return {"shape": [nr, nc], "fd": fd, "kind": "serpentine",
+            "pit": end[0] * nc + end[1]}
+
+
 def fd_array(case):
     nr, nc = case["shape"]
     return np.array(case["fd"], dtype=np.int64).reshape(nr, nc)
